@@ -25,13 +25,17 @@ def run(R):
               "weights and per-source bounds that differ between sources (so that mis-stacked bounds show); rows pairwise "
               "distinct, in- and out-of-gamut mixed; targets (and 2-D weights) handed in as C-ordered / Fortran-ordered "
               "(e.g. a transposed table) / strided arrays, lists, or integer arrays when whole (n = 2, 5, 8 use whole-number "
-              "targets) - the model sees values only, arguments must be unchanged afterwards; the hook-recorded (batch idx, padded, rows written) "
+              "targets, except on the over-determined shapes where rounding would leave no in-gamut row) - the model sees values only, arguments must be unchanged afterwards; the hook-recorded (batch idx, padded, rows written) "
               "sequence is compared literally with the Lean batchPlan; results of every batch size are compared with batch "
               "size 1; per-sample weights (W='inverse', c/B, random 2-D) with batch sizes 1, 2, 3 (padded): the joint fit must equal "
               "fitting every row alone with its own weight row - also when the rows of one call span several decades (a dark "
               "out-of-gamut row next to bright rows; compared relative to the row's own size; gaussian and poisson); plus row "
-              "permutation / duplication / drop / append. Non-trivial: n mod bs != 0 or bs > n (padded path) "
-              "with distinct rows." % NMAX)
+              "permutation / duplication / drop / append. System shapes: besides the 3x4 system the same receptors with 3, 2 and 1 sources "
+              "(exactly determined, over-determined, single source; full column rank, so in-gamut rows have unique intensities and sit next "
+              "to out-of-gamut rows in one call): the batch grid for two sample counts on randomly drawn shapes (gaussian, poisson), every "
+              "per-sample-weights case a second time on a randomly drawn shape, and the row permutation / duplication / drop / append also "
+              "with one weight vector per sample (2-D W whose rows move with their targets) on a randomly drawn shape. "
+              "Non-trivial: n mod bs != 0 or bs > n (padded path) with distinct rows." % NMAX)
     rng0 = R.rng(0)
     nf, ns = 3, 4
     A = gen_A(rng0, nf, ns)
@@ -41,20 +45,45 @@ def run(R):
     lb = np.array([0.0, 0.25, 0.0, 0.125]); ub = np.array([2.0, 1.5, 1.75, 1.25])
     w = np.array([1.0, 2.0, 0.5])
     Ap, bp = apply_K(A, K, base)
+    # the same receptors with fewer sources: exactly determined (3x3), over-determined (3x2) and single-source (3x1) systems of full
+    # column rank, where the intensities that reproduce an in-gamut target are unique (own random stream: the 3x4 system is unchanged)
+    SYS = {"under": dict(A=A, lb=lb, ub=ub, Ap=Ap, ns=ns)}
+    rngs = R.rng(30)
+    for name_, ns_ in (("exact", 3), ("over", 2), ("single", 1)):
+        A_ = gen_A(rngs, nf, ns_)
+        SYS[name_] = dict(A=A_, lb=lb[:ns_].copy(), ub=ub[:ns_].copy(), Ap=apply_K(A_, K, base)[0], ns=ns_)
+    SHAPES = ["under", "exact", "over", "single"]
 
-    def targets(n, rng):
-        Xt = lb + dyadic(rng, 0.125, 0.875, 3, size=(n, ns)) * (ub - lb)
-        B = Xt @ Ap.T + bp
+    def in_gamut(Ae, be, Bt, lbs, ubs):
+        """rows of Bt reproduced by in-bound intensities (decided for full column rank only; used for the evidence counts only)"""
+        if Ae.shape[1] > Ae.shape[0]:
+            return None
+        Xs = np.linalg.lstsq(Ae, (Bt - be).T, rcond=None)[0].T
+        res = np.abs(Xs @ Ae.T + be - Bt).max(axis=1)
+        return (res <= 1e-9 * np.abs(Bt).max(axis=1)) & np.all((Xs >= lbs - 1e-12) & (Xs <= ubs + 1e-12), axis=1)
+
+    def count_mix(tag, ing):
+        if ing is not None:
+            R.count("%s:full-column-rank:in-gamut-rows-mixed-with-out-of-gamut-rows:%s" % (tag, bool(np.any(ing) and not np.all(ing))))
+
+    def targets(n, rng, sysname="under"):
+        S_ = SYS[sysname]
+        Xt = S_["lb"] + dyadic(rng, 0.125, 0.875, 3, size=(n, S_["ns"])) * (S_["ub"] - S_["lb"])
+        B = Xt @ S_["Ap"].T + bp
         out = rng.random(n) < 0.4
         B[out] = B[out] * np.array([3.0, 0.5, 2.0])    # pushed out of the gamut, hue changed
-        if n % 3 == 2:
-            B = np.round(B)       # whole-number targets (may then be handed in with an integer dtype)
+        if n % 3 == 2 and sysname in ("under", "exact"):
+            # whole-number targets (may then be handed in with an integer dtype). Not for the over-determined shapes: their gamut has
+            # no volume, rounding would push every row out of it and the in-/out-of-gamut mix of the call would be lost
+            B = np.round(B)
         return B, out
     models = ["gaussian", "poisson", "excitation", "minvar"]
 
-    def fit(model, B, bs, **kw):
+    def fit(model, B, bs, sysname="under", W=None, **kw):
         if model in ("gaussian", "poisson"):
-            return lsq_linear(A, B, lb=lb, ub=ub, W=w, K=K, baseline=base, batch_size=bs, model=model, return_pred=True, solver="CLARABEL", **kw)
+            S_ = SYS[sysname]
+            return lsq_linear(S_["A"], B, lb=S_["lb"], ub=S_["ub"], W=(w if W is None else W), K=K, baseline=base, batch_size=bs, model=model, return_pred=True, solver="CLARABEL", **kw)
+        assert sysname == "under" and W is None
         if model == "excitation":
             return lsq_linear_excitation(A, B, lb=lb, ub=ub, W=None, K=K, baseline=np.zeros(nf), batch_size=bs, return_pred=True, solver="CLARABEL", **kw)
         return lsq_linear_minimize(A, B, None, lb=lb, ub=ub, W=w, K=K, baseline=base, batch_size=bs, return_pred=True, l2_eps=1e-3, solver="CLARABEL", **kw)[:2]
@@ -66,40 +95,49 @@ def run(R):
     grid = []
     for n in range(1, NMAX + 1):
         for bs in list(range(1, n + 3)) + ["full", None]:
-            grid.append((n, bs))
+            grid.append(("under", n, bs))
+    # exactly / over-determined and single-source systems (gaussian and poisson): two sample counts, each on a randomly drawn shape
+    xshape = [SHAPES[1 + int(i)] for i in R.rng(31).permutation(3)]
+    for j, n in enumerate((3, 5) if quick else (1, 3, 5, 8)):
+        for bs in list(range(1, n + 3)) + ["full", None]:
+            grid.append((xshape[j % 3], n, bs))
+
+    def gmodels(sysname):
+        return models if sysname == "under" else ["gaussian", "poisson"]
     ref = {}
     reqs = []
     raised = []
-    for gi, (n, bs) in enumerate(grid):
-        for model in models:
+    for gi, (sysname, n, bs) in enumerate(grid):
+        for model in gmodels(sysname):
             R.driver.ask("p%d_%s" % (gi, model), "batchplan", model, n, batch_text(bs))
     R.driver.run()
-    for gi, (n, bs) in enumerate(grid):
-        B, outmask = targets(n, R.rng(7, n))
-        for model in models:
+    for gi, (sysname, n, bs) in enumerate(grid):
+        S_ = SYS[sysname]
+        B, outmask = targets(n, R.rng(7, n), sysname)
+        for model in gmodels(sysname):
             t = R.driver.get("p%d_%s" % (gi, model))
             bsz = t.nat(); nw = t.nat()
             plan = [(t.nat(), t.bool(), t.nat(), t.nat()) for _ in range(nw)]
-            k = "%s:n=%d:bs=%s" % (model, n, batch_text(bs))
+            k = "%s:n=%d:bs=%s" % (model, n, batch_text(bs)) + ("" if sysname == "under" else ":" + sysname)
             if not R.want(k):
                 continue
             if model in ("excitation", "minvar") and quick and n > 4:
                 continue
-            c = dict(k=k, model=model, n=n, batch_size=batch_text(bs), A=A, K=K, baseline=base, lb=lb, ub=ub, w=w, B=B)
-            R.count("model:" + model)
+            c = dict(k=k, model=model, system=sysname, n=n, batch_size=batch_text(bs), A=S_["A"], K=K, baseline=base, lb=S_["lb"], ub=S_["ub"], w=w, B=B)
+            R.count("model:" + model); R.count("grid-system:%s(%dx%d)" % (sysname, nf, S_["ns"]))
             padded = any(p[1] for p in plan)
             R.count("padded:%s" % padded)
             # same values, another representation (implementation side only)
             Bg = as_given(R.rng(21, gi, models.index(model)), B, R, "B")
             drain()
-            st, out = call(fit, model, Bg, bs)
+            st, out = call(fit, model, Bg, bs, sysname)
             ev = [e for e in drain() if e["event"] == "batch"]
-            nontriv = (model, n, batch_text(bs)) if (padded and n >= 1) else None
+            nontriv = ((model, n, batch_text(bs)) if sysname == "under" else (model, n, batch_text(bs), sysname)) if (padded and n >= 1) else None
             R.case(c, nontriv, sample=(nontriv is not None and model == "gaussian" and n == 4))
             sig = "C05:%s" % model
             if st != "ok":
                 cls = "bs>n" if (isinstance(bs, int) and bs > n) else ("bs>1" if (bsz > 1) else "bs=1")
-                raised.append((c, model, n, bs, bsz, st, out, B, cls))
+                raised.append((c, model, n, bs, bsz, st, out, B, cls, sysname))
                 continue
             # A: the scatter bookkeeping recorded by the hook equals the model's plan
             site = "lsq_linear_minimize" if model == "minvar" else "_solve_problem"
@@ -107,21 +145,21 @@ def run(R):
             if got != plan:
                 R.failA(c, "recorded batch sequence %s differs from batchPlan %s" % (got, plan))
             X, Bp = out
-            key = (model, n)
+            key = (model, n, sysname)
             if bsz == 1 and key not in ref:
                 ref[key] = (np.array(X), np.array(Bp))
-            reqs.append((c, model, n, bs, bsz, np.array(X), np.array(Bp), B, outmask))
+            reqs.append((c, model, n, bs, bsz, np.array(X), np.array(Bp), B, outmask, sysname))
     # a fit that raises. The property says "never fails because of the combination" (of sample count and batch size): it is a
     # violation when the same targets are fitted without error at batch size one, or when the error is anything but the solver's
     # honest "did not converge". When the (harness-chosen) solver does not converge on these targets at batch size one either, the
     # reference result the property compares with does not exist: the group (model, n) is excluded and counted; a model that
     # loses more than half of its groups this way is reported as a correspondence failure.
     noref = {}
-    for c, model, n, bs, bsz, st, out, B, cls in raised:
+    for c, model, n, bs, bsz, st, out, B, cls, sysname in raised:
         sig = "C05:%s" % model
-        key = (model, n)
+        key = (model, n, sysname)
         if key not in ref and key not in noref:
-            st1, o1 = call(fit, model, B, 1)
+            st1, o1 = call(fit, model, B, 1, sysname)
             if st1 == "ok":
                 ref[key] = (np.array(o1[0]), np.array(o1[1]))
             else:
@@ -132,17 +170,17 @@ def run(R):
             continue
         R.failB(dict(c, impl_error=out), "fit with n=%d, batch_size=%s failed: %s" % (n, batch_text(bs), out), sig + ":raises:%s:%s" % (st, cls))
     for model in models:
-        groups = {n for (n, bs) in grid if not (model in ("excitation", "minvar") and quick and n > 4)}
-        lost = sorted(n for (m, n) in noref if m == model)
+        groups = {(sn, n) for (sn, n, bs) in grid if model in gmodels(sn) and not (model in ("excitation", "minvar") and quick and n > 4)}
+        lost = sorted((sn, n) for (m, n, sn) in noref if m == model)
         if R.only_case is None and len(lost) * 2 > len(groups):
             R.failA(dict(k="%s:no-reference" % model, model=model, sample_counts=lost), "the %s fit did not converge at batch size one for %d of %d sample counts: no reference to compare with" % (model, len(lost), len(groups)))
-    for c, model, n, bs, bsz, X, Bp, B, outmask in reqs:
-        if (model, n) not in ref:
-            st1, o1 = call(fit, model, B, 1)
+    for c, model, n, bs, bsz, X, Bp, B, outmask, sysname in reqs:
+        if (model, n, sysname) not in ref:
+            st1, o1 = call(fit, model, B, 1, sysname)
             if st1 != "ok":
                 continue
-            ref[(model, n)] = (np.array(o1[0]), np.array(o1[1]))
-        X1, Bp1 = ref[(model, n)]
+            ref[(model, n, sysname)] = (np.array(o1[0]), np.array(o1[1]))
+        X1, Bp1 = ref[(model, n, sysname)]
         sig = "C05:%s" % model
         cls = "bs>1" if bsz > 1 else "bs=1"
         # solver accuracy: exponential-cone (poisson) and bisection (excitation) solves are only accurate to ~1e-3
@@ -151,7 +189,7 @@ def run(R):
             print("DEBUG", c["k"], float(np.abs(Bp - Bp1).max()), outmask.tolist(), file=sys.stderr)
         if X.shape != X1.shape or Bp.shape != Bp1.shape:
             R.failB(dict(c, impl=[X, Bp]), "result shapes differ from batch size 1", sig + ":shape:" + cls); continue
-        if np.any(X < lb - 1e-6) or np.any(X > ub + 1e-6):
+        if np.any(X < SYS[sysname]["lb"] - 1e-6) or np.any(X > SYS[sysname]["ub"] + 1e-6):
             R.failB(dict(c, impl=[X, Bp]), "intensities out of bounds", sig + ":bounds:" + cls); continue
         if model == "excitation":
             o, o1 = excit_obj(B, Bp), excit_obj(B, Bp1)
@@ -177,20 +215,31 @@ def run(R):
     single_cache = {}
     for wkind, model, bs in wcases:
         wi = wkinds.index(wkind)
-        if True:
+        # the under-determined 3x4 system, and the same case on a randomly drawn system of full column rank (3x3, 3x2, 3x1): there
+        # in-gamut rows have unique intensities (an implementation may treat them apart from the out-of-gamut rows of the same call)
+        xs_ = SHAPES[1 + int(R.rng(33, wi, bs, 0 if model == "gaussian" else 1).integers(3))]
+        for sysname in ("under", xs_):
+            S_ = SYS[sysname]; Aw = S_["A"]; nsw = S_["ns"]; ubw = S_["ub"]
             k = "weights:%s:bs=%d" % (wkind, bs) if model == "gaussian" else "weights:%s:%s:bs=%d" % (wkind, model, bs)
+            if sysname != "under":
+                k += ":" + sysname
             if not R.want(k):
                 continue
-            rng = R.rng(13, wi)
             n = 4
-            Xt = dyadic(rng, 0.25, 1.75, 3, size=(n, ns))
-            Bw = Xt @ A.T
+            lbw = S_["lb"]
+            if wkind.endswith("_decades"):
+                lbw = np.zeros(nsw)
+            if sysname == "under":
+                rng = R.rng(13, wi)
+                Xt = dyadic(rng, 0.25, 1.75, 3, size=(n, nsw))
+            else:
+                rng = R.rng(13, wi, SHAPES.index(sysname))
+                Xt = lbw + dyadic(rng, 0.125, 0.875, 3, size=(n, nsw)) * (ubw - lbw)     # within the bounds: rows 0 and 3 start in gamut
+            Bw = Xt @ Aw.T
             Bw[1] = Bw[1] * np.array([2.5, 0.5, 1.5]); Bw[2] = Bw[2] * np.array([0.5, 3.0, 1.0])   # out of gamut
-            lbw = lb
             if wkind.endswith("_decades"):
                 # rows of very different brightness in one call (a high-dynamic-range image; exact powers of two). Lower bounds 0, so
                 # that a dark target is dark-reachable and only its hue is out of gamut: all weighted (relative) residuals are O(1)
-                lbw = np.zeros(ns)
                 Bw[3] = Bw[3] * np.array([1.5, 2.0, 0.5])     # rows 1, 2, 3 out of gamut, row 0 reachable
                 Bw = Bw * np.array([1.0, 2.0 ** -12, 2.0 ** -7, 4.0])[rng.permutation(n)][:, None]
             if wkind.startswith("inverse"):
@@ -199,22 +248,23 @@ def run(R):
                 Wrows = np.array([2.0, 2.0, 2.0, 0.5])[:, None] / Bw; Wm = Wrows
             else:
                 Wrows = dyadic(rng, 0.25, 2, 2, size=(n, nf)); Wm = Wrows
-            c = dict(k=k, weights=wkind, model=model, batch_size=bs, A=A, B=Bw, W=Wrows, lb=lbw, ub=ub)
-            R.count("weights:" + wkind); R.count("weights-model:" + model)
-            rngg = R.rng(23, wi, bs, 0 if model == "gaussian" else 1)
+            c = dict(k=k, weights=wkind, model=model, system=sysname, batch_size=bs, A=Aw, B=Bw, W=Wrows, lb=lbw, ub=ubw)
+            R.count("weights:" + wkind); R.count("weights-model:" + model); R.count("weights-system:%s(%dx%d)" % (sysname, nf, nsw))
+            count_mix("weights", in_gamut(Aw, 0.0, Bw, lbw, ubw))
+            rngg = R.rng(23, wi, bs, 0 if model == "gaussian" else 1) if sysname == "under" else R.rng(23, wi, bs, 0 if model == "gaussian" else 1, SHAPES.index(sysname))
             Bwg = as_given(rngg, Bw, R, "Bw")
             Wmg = Wm if isinstance(Wm, str) else as_given(rngg, Wm, R, "W2d")
 
             def joint(*watched):
-                return lsq_linear(A, Bwg, lb=lbw, ub=ub, W=Wmg, batch_size=bs, model=model, return_pred=True, solver="CLARABEL")[1]
+                return lsq_linear(Aw, Bwg, lb=lbw, ub=ubw, W=Wmg, batch_size=bs, model=model, return_pred=True, solver="CLARABEL")[1]
 
             def single():
-                return np.vstack([lsq_linear(A, Bw[i:i + 1], lb=lbw, ub=ub, W=Wrows[i:i + 1], batch_size=1, model=model, return_pred=True, solver="CLARABEL")[1] for i in range(n)])
+                return np.vstack([lsq_linear(Aw, Bw[i:i + 1], lb=lbw, ub=ubw, W=Wrows[i:i + 1], batch_size=1, model=model, return_pred=True, solver="CLARABEL")[1] for i in range(n)])
             st, oj = call(joint, *[a for a in (Bwg, Wmg) if isinstance(a, np.ndarray)])
-            if (wkind, model) not in single_cache:      # the row-by-row reference does not depend on the batch size of the joint call
-                single_cache[(wkind, model)] = call(single)
-            st2, os_ = single_cache[(wkind, model)]
-            R.case(c, ("weights", wkind, model, bs), sample=(bs == 2 and wkind == "c_over_B"))
+            if (wkind, model, sysname) not in single_cache:      # the row-by-row reference does not depend on the batch size of the joint call
+                single_cache[(wkind, model, sysname)] = call(single)
+            st2, os_ = single_cache[(wkind, model, sysname)]
+            R.case(c, ("weights", wkind, model, bs) if sysname == "under" else ("weights", wkind, model, bs, sysname), sample=(bs == 2 and wkind == "c_over_B"))
             if st != "ok" or st2 != "ok":
                 R.failB(dict(c, impl_error=[oj, os_]), "fit with per-sample weights failed: %s %s" % (oj, os_), "C05:%s:weights:raises:%s" % (model, st if st != "ok" else st2)); continue
             # solver accuracy as in the grid: 2e-4 (gaussian) / 1e-2 (poisson) capture units, set for targets of size ~10. The rows of
@@ -231,27 +281,46 @@ def run(R):
                 R.failB(dict(c, joint=oj, row_by_row=os_), "with per-sample weights (%s) the joint fit differs from fitting each row alone (max diff %.3g, rows %s, row sizes %s)"
                         % (wkind, float(dev.max()), np.flatnonzero(dev > tolw).tolist(), np.abs(Bw).max(axis=1).tolist()), "C05:%s:weights-row-dependence:%s" % (model, wkind))
 
-    # metamorphic: permute / duplicate / drop / append rows
-    for model in ["gaussian", "poisson"] + ([] if quick else ["minvar"]):
+    # metamorphic: permute / duplicate / drop / append rows (the weight rows of per-sample weights move with their target rows)
+    mcases = [(model, bs, "under", "channel") for model in ["gaussian", "poisson"] + ([] if quick else ["minvar"]) for bs in (1, 2, 3)]
+    # ... with one weight vector per sample, on a randomly drawn system shape (gaussian: every batch size; poisson: one, all in the thorough tier)
+    pbs = int(R.rng(35).integers(1, 4))
+    for model in ("gaussian", "poisson"):
         for bs in (1, 2, 3):
-            k = "meta:%s:bs=%d" % (model, bs)
+            if model == "gaussian" or not quick or bs == pbs:
+                mcases.append((model, bs, SHAPES[int(R.rng(34, bs, 0 if model == "gaussian" else 1).integers(4))], "per-sample"))
+    for model, bs, sysname, wmode in mcases:
+        if True:
+            plain = (sysname == "under" and wmode == "channel")
+            k = "meta:%s:bs=%d" % (model, bs) + ("" if plain else ":%s:%s" % (sysname, wmode))
             if not R.want(k):
                 continue
-            rng = R.rng(9, bs)
+            S_ = SYS[sysname]
+            rng = R.rng(9, bs) if plain else R.rng(9, bs, SHAPES.index(sysname), 1)
             n = 5
-            B, _ = targets(n, rng)
+            B, _ = targets(n, rng, sysname)
             perm = rng.permutation(n)
             variants = {"permute": perm, "duplicate": np.array([0, 1, 1, 2, 3, 4, 0]), "drop": np.array([0, 2, 4]), "append": np.arange(n)}
-            c = dict(k=k, model=model, batch_size=bs, B=B)
-            R.count("meta:" + model)
-            st, base_out = call(fit, model, B, bs)
-            R.case(c, ("meta", model, bs), sample=False)
+            Bapp = targets(2, R.rng(11, bs), sysname)[0]
+            Wm = None; Wapp = None
+            if wmode == "per-sample":
+                Wm = dyadic(rng, 0.25, 2, 2, size=(n, nf)); Wapp = dyadic(rng, 0.25, 2, 2, size=(2, nf))
+            c = dict(k=k, model=model, system=sysname, batch_size=bs, A=S_["A"], lb=S_["lb"], ub=S_["ub"], K=K, baseline=base, weights=wmode, W=(w if Wm is None else Wm), B=B)
+            R.count("meta:" + model); R.count("meta-weights:" + wmode); R.count("meta-system:%s(%dx%d)" % (sysname, nf, S_["ns"]))
+            count_mix("meta", in_gamut(S_["Ap"], bp, B, S_["lb"], S_["ub"]))
+            st, base_out = call(fit, model, B, bs, sysname, Wm)
+            R.case(c, ("meta", model, bs) if plain else ("meta", model, bs, sysname, wmode), sample=False)
             if st != "ok":
                 R.failB(dict(c, impl_error=base_out), "fit failed: %s" % base_out, "C05:%s:raises:%s:%s" % (model, st, "bs>1" if bs > 1 else "bs=1")); continue
             for name, idx in variants.items():
-                B2 = B[idx] if name != "append" else np.vstack([B, targets(2, R.rng(11, bs))[0]])
-                B2 = as_given(R.rng(25, bs, ["gaussian", "poisson", "minvar"].index(model), sorted(variants).index(name)), B2, R, "Bmeta")
-                st2, o2 = call(fit, model, B2, bs)
+                B2 = B[idx] if name != "append" else np.vstack([B, Bapp])
+                rr = R.rng(25, bs, ["gaussian", "poisson", "minvar"].index(model), sorted(variants).index(name)) if plain else \
+                    R.rng(25, bs, ["gaussian", "poisson", "minvar"].index(model), sorted(variants).index(name), SHAPES.index(sysname), 1)
+                B2 = as_given(rr, B2, R, "Bmeta")
+                W2 = None
+                if Wm is not None:
+                    W2 = as_given(rr, Wm[idx] if name != "append" else np.vstack([Wm, Wapp]), R, "Wmeta")
+                st2, o2 = call(fit, model, B2, bs, sysname, W2)
                 if st2 != "ok":
                     R.failB(dict(c, variant=name, impl_error=o2), "fit of %s rows failed: %s" % (name, o2), "C05:%s:raises:%s:%s" % (model, st2, "bs>1" if bs > 1 else "bs=1")); continue
                 exp = base_out[1][idx] if name != "append" else base_out[1]
